@@ -87,6 +87,10 @@ type Writer struct {
 	// catalog metadata stream when /EncryptMetadata=false is in effect.
 	refIsPlaintext map[Reference]bool
 
+	// readEnc decrypts objects read back through Get.  Unlike w.w.enc it
+	// survives Close, so that a closed Writer still reads what it wrote.
+	readEnc *encryptInfo
+
 	// rm is the Writer-owned ResourceManager used for any embedding
 	// driven by the Writer itself: the eager NewWriter-time embed of
 	// Catalog.Metadata (so the encryption key derivation sees the
@@ -284,6 +288,7 @@ func NewWriter(w io.Writer, v Version, opt *WriterOptions) (*Writer, error) {
 
 		documentMetadata: opt.DocumentMetadata,
 		refIsPlaintext:   map[Reference]bool{},
+		readEnc:          enc,
 	}
 	pdf.rm = NewResourceManager(pdf)
 	if ws, ok := w.(io.WriteSeeker); ok {
@@ -482,7 +487,7 @@ func (w *Writer) get(ref Reference, canObjStm, scalarOnly bool) (obj Native, err
 			}
 		}
 		getInt := safeGetInteger(writerLengthGetter{w}, true)
-		return getFromObjStm(w, ref.Number(), entry.InStream, getInt, w.w.enc)
+		return getFromObjStm(w, ref.Number(), entry.InStream, getInt, w.readEnc)
 	}
 
 	err = w.w.w.Flush()
@@ -533,7 +538,7 @@ func (g writerLengthGetter) Get(ref Reference, canObjStm bool) (Native, error) {
 func (w *Writer) scannerFrom(pos int64, canObjStm bool) (*scanner, error) {
 	r := w.origW.(io.ReadSeeker)
 	getInt := safeGetInteger(writerLengthGetter{w}, canObjStm)
-	s := newScanner(r, getInt, w.w.enc)
+	s := newScanner(r, getInt, w.readEnc)
 	s.unencrypted = w.refIsPlaintext
 	if ra, ok := w.origW.(io.ReaderAt); ok {
 		s.fileReader = ra
